@@ -28,7 +28,31 @@ def tup(shape) -> Tuple[int, ...]:
 # holders: strategies (given a shape), builders, reference arrays
 # --------------------------------------------------------------------------
 
-PATTERNS = ("none", "one", "some", "all", "all")
+PATTERNS = ("none", "one", "few", "few", "some", "some", "all", "all", "all", "all")
+SPARSE_PATTERNS = ("none", "one", "few", "few", "few", "some", "some", "some", "all", "all")
+VEC_PATTERNS = ("all", "all", "all", "all", "all", "some", "some", "some", "one", "none")
+
+
+def pattern_values(draw, n, pattern, vkind):
+    """gen._pattern_values plus the class "few": between 2 and n // 3 nonzeros."""
+    if pattern != "few" or n == 0:
+        return gen._pattern_values(draw, n, "one" if pattern == "few" else pattern, vkind)
+    lo = min(2, n)
+    k = draw(st.integers(lo, max(lo, n // 3)))
+    pos = draw(st.lists(st.integers(0, n - 1), min_size=k, max_size=k, unique=True))
+    vals = draw(st.lists(gen.values(vkind, nonzero=True), min_size=k, max_size=k))
+    out = [0.0] * n
+    for q, v in zip(pos, vals):
+        out[q] = v
+    return out
+
+
+@st.composite
+def orders(draw, lo, hi):
+    """Tensor order with the middle orders favoured (1-way tensors are the degenerate corner, not the bulk)."""
+    weights = {1: 1, 2: 2, 3: 3, 4: 2, 5: 1}
+    pool = [n for n in range(lo, hi + 1) for _ in range(weights.get(n, 1))]
+    return draw(st.sampled_from(pool))
 
 
 @st.composite
@@ -36,14 +60,14 @@ def dense_holder(draw, shape, vkind, patterns=PATTERNS):
     n = ref.prod(shape)
     pattern = draw(st.sampled_from(list(patterns)))
     return dict(holder="tensor", shape=list(shape), vkind=vkind, pattern=pattern,
-                data=gen._pattern_values(draw, n, pattern, vkind))
+                data=pattern_values(draw, n, pattern, vkind))
 
 
 @st.composite
-def sparse_holder(draw, shape, vkind, patterns=PATTERNS):
+def sparse_holder(draw, shape, vkind, patterns=SPARSE_PATTERNS):
     n = ref.prod(shape)
     pattern = draw(st.sampled_from(list(patterns)))
-    flat = gen._pattern_values(draw, n, pattern, vkind)
+    flat = pattern_values(draw, n, pattern, vkind)
     entries = [(list(s), v) for s, v in zip(ref.all_subs_F(shape), flat) if v != 0.0]
     order = draw(st.sampled_from(["sorted", "reverse", "random"]))
     if order == "reverse":
@@ -66,8 +90,8 @@ def kruskal_holder(draw, shape, vkind, max_rank=3):
 def tucker_holder(draw, shape, vkind, sparse_core=None, max_core=3):
     cshape = [draw(st.integers(1, max_core)) for _ in shape]
     n = ref.prod(cshape)
-    pattern = draw(st.sampled_from(["one", "some", "all", "all"]))
-    core = gen._pattern_values(draw, n, pattern, vkind)
+    pattern = draw(st.sampled_from(["one", "few", "some", "all", "all", "all"]))
+    core = pattern_values(draw, n, pattern, vkind)
     factors = [
         draw(st.lists(st.lists(gen.values(vkind), min_size=c, max_size=c), min_size=s, max_size=s))
         for s, c in zip(shape, cshape)
@@ -112,8 +136,8 @@ def holder(draw, tier, kind, min_order=1, max_order=None, shape=None, vkind=None
     """A holder of class ``kind`` over a generated (or given) shape."""
     if shape is None:
         mo, ms, mc = gen.tier_limits(tier) if kind in ("tensor", "sptensor") else structured_limits(tier)
-        shape = draw(gen.shapes(tier, min_order=min_order, max_order=min(max_order or mo, mo), max_size=ms,
-                                max_cells=mc))
+        N = draw(orders(min_order, min(max_order or mo, mo)))
+        shape = draw(gen.shapes(tier, min_order=N, max_order=N, max_size=ms, max_cells=mc))
     if vkind is None:
         vkind = draw(st.sampled_from(["int", "float"]))
     return draw(holder_with_shape(shape, vkind, kind, **kw))
@@ -220,10 +244,15 @@ def fixed_holder(kind, shape, salt=0):
     n = ref.prod(shape)
     if kind == "tensor":
         return dict(holder="tensor", shape=shape, vkind="int", pattern="some", data=_det_values(n, salt))
-    if kind in ("sptensor", "sptensor-thin"):
+    if kind in ("sptensor", "sptensor-thin", "sptensor-one", "sptensor-empty"):
         flat = _det_values(n, salt)
         if kind == "sptensor-thin":
             flat = [v if i % 5 == 1 else 0.0 for i, v in enumerate(flat)]
+        elif kind == "sptensor-one":
+            keep = (n * 2) // 3
+            flat = [(v if v != 0 else 3.0) if i == keep else 0.0 for i, v in enumerate(flat)]
+        elif kind == "sptensor-empty":
+            flat = [0.0] * n
         entries = [(list(s), v) for s, v in zip(ref.all_subs_F(shape), flat) if v != 0.0][::-1]
         return dict(holder="sptensor", shape=shape, vkind="int", pattern="some", order="reverse",
                     subs=[e[0] for e in entries], vals=[e[1] for e in entries])
